@@ -22,6 +22,8 @@ type Task struct {
 	Kind   string // op | callback | background
 	gid    int64
 	held   int
+	want   interface{}          // fine mode: the mutex this task is about to lock
+	holds  map[interface{}]bool // fine mode: mutexes it holds
 	parked bool
 	wake   chan string
 	Done   bool
@@ -58,6 +60,10 @@ type Sched struct {
 	SiteSeq    []string
 	drainTicks int
 	driverGID  int64
+	// Fine switches to lock-aware scheduling: tasks may be parked inside critical sections (at
+	// statement-level yield points); a task waiting for a mutex another parked task holds is not offered.
+	Fine  bool
+	owner map[interface{}]*Task
 }
 
 // New returns a scheduler over a choice list.
@@ -110,7 +116,7 @@ func (s *Sched) park(t *Task, site string, opts []string) string {
 }
 
 // Yield is the hook installed into the instrumented packages.
-func (s *Sched) Yield(kind, site string) {
+func (s *Sched) Yield(kind, site string, m interface{}) {
 	t := s.current()
 	if t == nil {
 		if s.driverGID == gid() {
@@ -119,7 +125,13 @@ func (s *Sched) Yield(kind, site string) {
 		s.fail("yield from an unregistered goroutine at %s (%s)", site, kind)
 		return
 	}
+	if s.Fine {
+		s.yieldFine(t, kind, site, m)
+		return
+	}
 	switch kind {
+	case "stmt":
+		return
 	case "lock":
 		if t.held == 0 {
 			s.park(t, "lock@"+site, nil)
@@ -138,6 +150,33 @@ func (s *Sched) Yield(kind, site string) {
 		if t.held == 0 {
 			s.park(t, kind+"@"+site, nil)
 		}
+	}
+}
+
+func (s *Sched) yieldFine(t *Task, kind, site string, m interface{}) {
+	switch kind {
+	case "lock":
+		s.mu.Lock()
+		t.want = m
+		s.mu.Unlock()
+		s.park(t, "lock@"+site, nil) // released only when the mutex is free; the release makes this task its owner
+		s.mu.Lock()
+		t.want = nil
+		if t.holds == nil {
+			t.holds = map[interface{}]bool{}
+		}
+		t.holds[m] = true
+		s.mu.Unlock()
+	case "unlock":
+		s.mu.Lock()
+		delete(t.holds, m)
+		if s.owner[m] == t {
+			delete(s.owner, m)
+		}
+		s.mu.Unlock()
+		s.park(t, "unlock@"+site, nil)
+	default:
+		s.park(t, kind+"@"+site, nil)
 	}
 }
 
@@ -194,6 +233,11 @@ func (s *Sched) runnable() []*Item {
 	var items []*Item
 	for _, t := range s.Tasks {
 		if t.parked && !t.Done {
+			if t.want != nil {
+				if o := s.owner[t.want]; o != nil && o != t {
+					continue // the mutex it wants is held by another parked task
+				}
+			}
 			if len(t.Opts) == 0 {
 				items = append(items, &Item{Kind: "task", Task: t, Label: fmt.Sprintf("%s#%d %s", t.Name, t.ID, t.Site)})
 			}
@@ -267,6 +311,12 @@ func (s *Sched) Run(maxSteps int, after func(it *Item)) {
 			s.mu.Lock()
 			it.Task.parked = false
 			it.From = it.Task.Site
+			if it.Task.want != nil {
+				if s.owner == nil {
+					s.owner = map[interface{}]*Task{}
+				}
+				s.owner[it.Task.want] = it.Task
+			}
 			s.SiteSeq = append(s.SiteSeq, fmt.Sprintf("%d@%s", it.Task.ID, it.Task.Site))
 			s.mu.Unlock()
 			it.Task.wake <- it.Msg
@@ -298,28 +348,30 @@ func (s *Sched) Stuck() []*Task {
 	return out
 }
 
-// ReleaseAll wakes every parked task so that the bubble can end (teardown after a verdict).
+// ReleaseAll lets every parked task run on (first option of every callback), one at a time, so
+// that the bubble can end after a verdict.
 func (s *Sched) ReleaseAll() {
-	for i := 0; i < 200; i++ {
+	for i := 0; i < 5000; i++ {
 		synctest.Wait()
-		s.mu.Lock()
-		var ts []*Task
-		for _, t := range s.Tasks {
-			if t.parked && !t.Done {
-				t.parked = false
-				ts = append(ts, t)
+		var it *Item
+		for _, x := range s.runnable() {
+			if x.Kind == "task" {
+				it = x
+				break
 			}
 		}
-		s.mu.Unlock()
-		if len(ts) == 0 {
+		if it == nil {
 			return
 		}
-		for _, t := range ts {
-			msg := ""
-			if len(t.Opts) > 0 {
-				msg = t.Opts[0]
+		s.mu.Lock()
+		it.Task.parked = false
+		if it.Task.want != nil {
+			if s.owner == nil {
+				s.owner = map[interface{}]*Task{}
 			}
-			t.wake <- msg
+			s.owner[it.Task.want] = it.Task
 		}
+		s.mu.Unlock()
+		it.Task.wake <- it.Msg
 	}
 }
